@@ -96,6 +96,28 @@ pub const DECLS: &[(&str, &str)] = &[
   ("typelit-computed-accessor-keys", "const kg@N: unique symbol = Symbol();\nconst ks@N: unique symbol = Symbol();\nexport type TLA@N = { get [kg@N](): @R; set [ks@N](v: @R) };\n"),
   ("interface-computed-keys", "const ki@N: unique symbol = Symbol();\nconst kj@N: unique symbol = Symbol();\nexport interface IC@N { [ki@N](): @R; [kj@N]: number }\n"),
   ("nested-typelit-computed-method-key", "const kn@N: unique symbol = Symbol();\nexport function fn@N(o: { inner: { [kn@N](): void } }): void {}\n"),
+  // further declaration shapes
+  ("class-expression", "export const KE@N = class { m(a: @R): @R { return a; } p: number = 1; };\n"),
+  ("class-expression-named-extends", "class KB@N { b: @R = null as any; }\nexport const KX@N = class Inner extends KB@N { x(): void {} };\n"),
+  ("export-as-default", "class PD@N { v: @R = null as any; }\nexport { PD@N as default };\n"),
+  ("index-signature", "export interface IS@N { [key: string]: @R; fixed: number }\nexport class CS@N { [k: string]: unknown; static [s: string]: number; }\n"),
+  ("constructor-overloads", "export class CO@N { constructor(a: string); constructor(a: @R, b?: number); constructor(a: any, b?: any) { void a; void b; } }\n"),
+  ("enum-referencing-private", "const base@N = 10;\nenum PE@N { A = 1, B = A * 2 }\nexport enum EE@N { X = PE@N.B, Y = base@N, Z = \"z\".length }\n"),
+  ("declare-module-augmentation", "export interface Aug@N { a: @R }\ndeclare module \"./b.ts\" { interface BU { extra@N?: number } }\n"),
+  ("type-predicates", "export function isR@N(x: unknown): x is @R { return true; }\nexport function assertR@N(x: unknown): asserts x is @R {}\nexport class TP@N { isMe(): this is TP@N { return true; } }\n"),
+  ("this-return-and-rest", "export class Ch@N { a(...xs: @R[]): this { return this; } b = (...ys: number[]): number => ys.length; }\n"),
+  ("es-private-and-static-block", "export class EP@N { #secret: @R = null as any; static #count = 0; static { EP@N.#count++; } get size(): number { return EP@N.#count; } #m(): void {} pub(): void { this.#m(); } }\n"),
+  ("accessor-pair", "export class AP@N { private _v: @R = null as any; get v(): @R { return this._v; } set v(x: @R) { this._v = x; } static get s(): number { return 1; } }\n"),
+  ("as-const-and-tuples", "export const tup@N = [1, \"a\", true] as const;\nexport const obj@N = { k: 1, nested: { z: \"q\" } } as const;\nexport type Tup@N = [a: @R, b?: number, ...rest: string[]];\n"),
+  ("conditional-and-recursive-types", "export type Un@N<T> = T extends Array<infer U> ? Un@N<U> : T;\nexport type Tree@N = { v: @R; kids: Tree@N[] };\nexport type KeysOf@N = keyof Tree@N & string;\n"),
+  ("literal-initialisers", "export const big@N = 10n;\nexport const neg@N = -1;\nexport const re@N = /x+/g;\nexport const tpl@N = `plain`;\nexport const nul@N = null;\nexport const und@N = undefined;\nexport const vd@N = void 0;\n"),
+  ("new-with-type-arguments", "export const mp@N = new Map<string, @R>();\nexport const st@N: Set<@R> = new Set();\n"),
+  ("declare-fields-and-protected", "export abstract class DF@N { declare readonly d: @R; protected p: number = 1; protected abstract q(): @R; protected constructor() {} }\n"),
+  ("export-import-equals", "namespace Src@N { export type T = @R; export const v: number = 1; }\nexport import Alias@N = Src@N.T;\n"),
+  ("function-destructured-and-rest", "export function fd@N({ a, b }: { a: @R; b?: number }, [c]: [string], ...rest: @R[]): void {}\nexport const ad@N = ({ a }: { a: @R }): void => {};\n"),
+  ("object-with-accessors-and-spread", "const partO@N = { z: 1 };\nexport const ow@N = { get g(): number { return 1; }, set s(v: number) {}, ...partO@N, [\"k\"]: 2 };\n"),
+  ("top-level-await-initialiser", "export const aw@N = await Promise.resolve(1);\nexport const oc@N = globalThis?.name?.length;\n"),
+  ("generator-and-async-methods", "export class GM@N { *gen(): Generator<@R> {} async am(): Promise<@R> { return null as any; } async *ag(): AsyncGenerator<number> {} }\n"),
   ("class-members", "export class C@N {\n  p: @R = null as any;\n  static s: number = 1;\n  readonly ro?: @R;\n  constructor(public q: @R, private r: number, protected t?: @R) {}\n  m(a: @R, b: number = 1, c?: @R, ...rest: @R[]): @R { return a; }\n  get g(): @R { return this.p; }\n  set g(v: @R) {}\n  private priv(x: number): void {}\n  private pp: number = 1;\n  #hidden: number = 1;\n  #hm(): void {}\n  protected prot(): @R { return this.p; }\n  static sm(): void {}\n  [key: string]: any;\n}\n"),
   ("class-extends-private", "class Base@N { b: @R = null as any; bm(): void {} }\nexport class C@N extends Base@N { constructor() { super(); } x: number = 1; }\n"),
   ("class-implements", "export class C@N implements PubI@N { a: @R = null as any; }\nexport interface PubI@N { a: @R }\n"),
@@ -153,6 +175,16 @@ pub const DECLS: &[(&str, &str)] = &[
 
 pub const B_BASE: &str = "export interface BT { b: number }\nexport type BU = string;\nexport const bv: number = 1;\nexport class BC { x: number = 1; }\nexport namespace BN { export type Y = number; }\nexport function helper(): number { return 1; }\nexport default class DefB { d: number = 1; }\nconst unusedInB = 1;\n";
 
+pub const SLOT0_ONLY: &[&str] = &[
+  "class-expression", "class-expression-named-extends", "index-signature", "constructor-overloads", "enum-referencing-private",
+  "declare-module-augmentation", "type-predicates", "this-return-and-rest", "es-private-and-static-block", "accessor-pair",
+  "as-const-and-tuples", "conditional-and-recursive-types", "literal-initialisers", "new-with-type-arguments",
+  "declare-fields-and-protected", "export-import-equals", "function-destructured-and-rest", "object-with-accessors-and-spread",
+  "top-level-await-initialiser", "generator-and-async-methods", "typelit-computed-property-key", "typelit-computed-accessor-keys",
+  "interface-computed-keys", "class-prop-typed-arrow-no-return", "const-untyped-arrow-in-object", "mapped-type", "template-literal",
+  "satisfies", "type-assertion", "function-this-param", "arrow-generic-async", "const-in-function-type",
+];
+
 pub const B_DECLS: &[(&str, &str)] = &[
   ("none", ""),
   ("b-fn-no-return-type", "export function bad@N(a: number) { return a; }\n"),
@@ -183,13 +215,17 @@ pub fn gen_package(ch: &Ch, mod_slots: usize) -> GenPkg {
   let mut unused = vec![];
   let mut has_default = false;
   let mut has_star = false;
+  // the first slot chooses from every template; the later slots from all but
+  // the SLOT0_ONLY ones (shapes that do not interact with their neighbours), which
+  // keeps the three-deviation level of the quick tier affordable
+  let narrow: Vec<(&str, &str)> = DECLS.iter().copied().filter(|(n, _)| !SLOT0_ONLY.contains(n)).collect();
   for n in 0..mod_slots {
-    let (dn, tpl) = DECLS[ch.choose("decl", DECLS.len())];
+    let (dn, tpl) = if n == 0 { DECLS[ch.choose("decl", DECLS.len())] } else { narrow[ch.choose("decl", narrow.len())] };
     if tpl.is_empty() {
       continue;
     }
     // a module has at most one default export / one star re-export of b.ts
-    if dn.starts_with("default-") {
+    if dn.starts_with("default-") || dn == "export-as-default" {
       if has_default {
         continue;
       }
